@@ -157,6 +157,18 @@ def owned_by(an, fn, cls_qn: str) -> bool:
         and fn.cls.module is info.module
 
 
+def public_name(an, fn) -> str:
+    """qualified name of a method for reports: a method of a private base class that one
+    public class of the same module was split into is named after that public class"""
+    if fn.cls is not None and fn.cls.name.startswith('_'):
+        heirs = [info for info in an.p.classes.values()
+                 if info.module is fn.cls.module and not info.name.startswith('_')
+                 and fn.cls.qn in info.bases]
+        if len(heirs) == 1:
+            return '%s.%s' % (heirs[0].qn, fn.name)
+    return fn.qn
+
+
 def is_site(node, call) -> bool:
     """an event's node stands for the call site ``call``: the node itself, or the call a
     ``functools.partial`` local stands for at that site"""
